@@ -145,6 +145,20 @@ class PartiesEngine(Engine):
             elif f == 'clone_into':
                 op['from'] = rng.randrange(SLOTS)
             ops.append(op)
+        if sw.random() < 0.2 and schema['classes']:
+            # the last act of some histories: text that is accepted but that no build can digest (an association over
+            # an attribute or a class that does not exist), followed by builds -- every one of them has to be
+            # refused, by this loader and by a fresh one fed the same texts
+            c = rng.choice(schema['classes'])
+            poison = rng.choice([
+                "CREATE ROP REF_ID R99 FROM MC %s (Nope_) TO 1 %s (%s);\n" % (c['kind'], c['kind'], c['attrs'][0][0]),
+                "CREATE ROP REF_ID R98 FROM MC %s (%s) TO 1 Nowhere_ (Id);\n" % (c['kind'], c['attrs'][0][0]),
+                "CREATE UNIQUE INDEX I9 ON Nowhere_ (Id);\n",
+                "CREATE TABLE %s (Again_ INTEGER);\n" % c['kind'],
+            ])
+            ops.append({'a': 0, 'op': 'input', 'text': poison, 'route': 'input'})
+            for _ in range(rng.randint(2, 3)):
+                ops.append({'a': 0, 'op': 'build', 'slot': rng.randrange(SLOTS), 'gen': None})
         cfg = {'schema': schema, 'clients': clients}
         return {'prop': prop, 'engine': self.name, 'seed': seed, 'cfg': cfg, 'ops': ops}
 
